@@ -338,7 +338,11 @@ func (s *LevelDBStore) DeleteRange(min, max uint64) error {
 		if err := iterator.Error(); err != nil {
 			return err
 		}
-		batch.Delete(iterator.Key())
+		// Index keys at or above 0x737461626c657375 sort after the
+		// stablestore- keys, so a range can span them: they are not log entries.
+		if !bytes.HasPrefix(iterator.Key(), []byte("stablestore-")) {
+			batch.Delete(iterator.Key())
+		}
 		available = iterator.Next()
 	}
 	return s.db.Write(&batch, nil)
